@@ -146,16 +146,20 @@ class Evaluator:
         if self.depth > 16:
             raise AnalysisError('helper calls nest too deeply')
         a = fndef.args
-        if a.vararg or a.kwarg or a.posonlyargs:
-            raise AnalysisError(f'helper {getattr(fndef, "name", "lambda")} has a variadic signature')
-        params = [x.arg for x in a.args]
+        params = [x.arg for x in a.posonlyargs + a.args]
         static = any(text(d) == 'staticmethod' for d in getattr(fndef, 'decorator_list', []))
         env = dict(getattr(fndef, '_closure', {}) or {})
         vals = list(args)
+        kwargs = dict(kwargs)
         if bound_self is not None and not static:
             vals = [bound_self] + vals
         if len(vals) > len(params):
-            raise _Raise('TypeError')
+            if not a.vararg:
+                raise _Raise('TypeError')
+            env[a.vararg.arg] = tuple(vals[len(params):])
+            vals = vals[:len(params)]
+        elif a.vararg:
+            env[a.vararg.arg] = ()
         for nm, v in zip(params, vals):
             env[nm] = v
         defaults = dict(zip(params[len(params) - len(a.defaults):], a.defaults))
@@ -168,6 +172,11 @@ class Evaluator:
                 raise _Raise('TypeError')
         for ka, d in zip(a.kwonlyargs, a.kw_defaults):
             env[ka.arg] = kwargs[ka.arg] if ka.arg in kwargs else self.expr(d, {})
+        extra = {k: v for k, v in kwargs.items() if k not in params and k not in [x.arg for x in a.kwonlyargs]}
+        if a.kwarg:
+            env[a.kwarg.arg] = extra
+        elif extra:
+            raise _Raise('TypeError')
         sub = Evaluator(fndef, self.intrinsics, None, self.model_types, self.module, self.cls, self.depth + 1)
         sub.steps = self.steps
         is_gen = not isinstance(fndef, ast.Lambda) and any(isinstance(x, (ast.Yield, ast.YieldFrom)) for x in _walk_own(fndef))
@@ -608,8 +617,18 @@ class Evaluator:
                 if tn not in kinds:
                     raise AnalysisError(f'isinstance test against unmodelled type {tn}')
                 return isinstance(v, kinds[tn])
-            args = [self.expr(a, env) for a in e.args]
-            kwargs = {k.arg: self.expr(k.value, env) for k in e.keywords}
+            args = []
+            for a in e.args:
+                if isinstance(a, ast.Starred):
+                    args.extend(list(self.expr(a.value, env)))
+                else:
+                    args.append(self.expr(a, env))
+            kwargs = {}
+            for k in e.keywords:
+                if k.arg is None:
+                    kwargs.update(dict(self.expr(k.value, env)))
+                else:
+                    kwargs[k.arg] = self.expr(k.value, env)
             if isinstance(f, ast.Name) and f.id in env and callable(env[f.id]):
                 return env[f.id](*args, **kwargs)
             if not isinstance(f, (ast.Name, ast.Attribute)):
